@@ -336,15 +336,15 @@ impl <N: NumericOps> ArrayTrigonometric<N> for Array<N> {
 
             let parts = self.get_shape()?.remove_at(axis).into_iter().product();
             let partial = self
-                .moveaxis(vec![axis.to_isize()], vec![self.ndim()?.to_isize()])?
+                .moveaxis(vec![axis.to_isize()], vec![(self.ndim()? - 1).to_isize()])?
                 .ravel().split(parts, None)?;
 
             let parameter_parts = period.get_shape()?.remove_at(axis).into_iter().product();
             let period_partial = period
-                .moveaxis(vec![axis.to_isize()], vec![self.ndim()?.to_isize()])?
+                .moveaxis(vec![axis.to_isize()], vec![(self.ndim()? - 1).to_isize()])?
                 .ravel().split(parameter_parts, None)?;
             let discont_partial = discont
-                .moveaxis(vec![axis.to_isize()], vec![self.ndim()?.to_isize()])?
+                .moveaxis(vec![axis.to_isize()], vec![(self.ndim()? - 1).to_isize()])?
                 .ravel().split(parameter_parts, None)?;
 
             let mut results = vec![];
@@ -362,7 +362,7 @@ impl <N: NumericOps> ArrayTrigonometric<N> for Array<N> {
                 .collect::<Self>()
                 .reshape(&tmp_shape);
             if axis == 0 { result.rollaxis((self.ndim()? - 1).to_isize(), None) }
-            else { result.moveaxis(vec![axis.to_isize()], vec![self.ndim()?.to_isize()]) }
+            else { result.moveaxis(vec![axis.to_isize()], vec![(self.ndim()? - 1).to_isize()]) }
                 .reshape(&self.get_shape()?)
         }
     }
